@@ -21,7 +21,7 @@ def vc(s):
 
 def _recip(b):
     b = symnp._ex(b)
-    if isinstance(b, (Sx, symnp._NaN)):
+    if isinstance(b, (Sx, symnp._NaN, core.Qx)):
         return 1 / b
     if b == 0:
         raise ZeroDivisionError('division by zero')
@@ -32,7 +32,7 @@ def _recip(b):
 def _el_div(a, b):
     a = symnp._ex(a)
     b = symnp._ex(b)
-    if isinstance(a, (Sx, symnp._NaN)) or isinstance(b, (Sx, symnp._NaN)):
+    if isinstance(a, (Sx, symnp._NaN, core.Qx)) or isinstance(b, (Sx, symnp._NaN, core.Qx)):
         return a / b
     if isinstance(a, bool) or isinstance(b, bool):
         a, b = int(a), int(b)
@@ -53,7 +53,7 @@ def vdiv(a, b):
 
 
 def _is_plain(v):
-    return isinstance(v, (int, float, complex, Fraction, Sx, symnp._NaN, _np.number))
+    return isinstance(v, (int, float, complex, Fraction, Sx, symnp._NaN, _np.number, core.Qx))
 
 
 def _el_pow(a, b):
